@@ -173,3 +173,66 @@ def mutations(rng, tx, every_offset=False, budget=40):
         c = bytearray(b)
         c[k] = rng.choice([0, 1, 0xFC, 0xFD, 0xFE, 0xFF])
         yield ("byteset", bytes(c))
+
+
+# ---- independent PSBT byte builder (does not go through embit's PSBT serialiser) --------------------
+
+def cs(n):
+    if n < 0xFD:
+        return bytes([n])
+    if n < 0x10000:
+        return b"\xfd" + n.to_bytes(2, "little")
+    if n < 0x100000000:
+        return b"\xfe" + n.to_bytes(4, "little")
+    return b"\xff" + n.to_bytes(8, "little")
+
+
+def kv(k, v):
+    return cs(len(k)) + k + cs(len(v)) + v
+
+
+def raw_tx(version, vin, vout, locktime):
+    """vin: [(txid_display, vout, script_sig, sequence)], vout: [(value, spk)] -> legacy wire bytes"""
+    b = version.to_bytes(4, "little") + cs(len(vin))
+    for (txid, n, ss, seq) in vin:
+        b += txid[::-1] + n.to_bytes(4, "little") + cs(len(ss)) + ss + seq.to_bytes(4, "little")
+    b += cs(len(vout))
+    for (val, spk) in vout:
+        b += val.to_bytes(8, "little") + cs(len(spk)) + spk
+    return b + locktime.to_bytes(4, "little")
+
+
+def build_psbt(tx, version, in_maps=None, out_maps=None, global_extra=(), explicit_seq=True):
+    """PSBT bytes for an unsigned embit Transaction `tx` (used only as a field container).
+    in_maps/out_maps: per scope list of (key, value) pairs to include."""
+    nin, nout = len(tx.vin), len(tx.vout)
+    in_maps = in_maps or [[] for _ in range(nin)]
+    out_maps = out_maps or [[] for _ in range(nout)]
+    b = b"psbt\xff"
+    if version == 0:
+        utx = raw_tx(tx.version, [(i.txid, i.vout, b"", i.sequence) for i in tx.vin],
+                     [(o.value, o.script_pubkey.data) for o in tx.vout], tx.locktime)
+        b += kv(b"\x00", utx)
+    else:
+        b += kv(b"\x02", tx.version.to_bytes(4, "little"))
+        b += kv(b"\x03", tx.locktime.to_bytes(4, "little"))
+        b += kv(b"\x04", cs(nin)) + kv(b"\x05", cs(nout))
+        b += kv(b"\xfb", (2).to_bytes(4, "little"))
+    for (k, v) in global_extra:
+        b += kv(k, v)
+    b += b"\x00"
+    for i, m in zip(tx.vin, in_maps):
+        for (k, v) in m:
+            b += kv(k, v)
+        if version == 2:
+            b += kv(b"\x0e", i.txid[::-1]) + kv(b"\x0f", i.vout.to_bytes(4, "little"))
+            if explicit_seq or i.sequence != 0xFFFFFFFF:
+                b += kv(b"\x10", i.sequence.to_bytes(4, "little"))
+        b += b"\x00"
+    for o, m in zip(tx.vout, out_maps):
+        for (k, v) in m:
+            b += kv(k, v)
+        if version == 2:
+            b += kv(b"\x03", o.value.to_bytes(8, "little")) + kv(b"\x04", o.script_pubkey.data)
+        b += b"\x00"
+    return b
